@@ -81,6 +81,17 @@ Definition drained (m : mst) : bool :=
                     end)
           (seq_z 1 (pred (length (m_sels m)))).
 
+(* everything produced was executed, exactly once; only global events (position 7) may be
+   dropped, and only beyond what the event queue holds *)
+Fixpoint counts_ok (i : nat) (p x : list Z) : bool :=
+  match p, x with
+  | [], [] => true
+  | a :: pr, b :: xr =>
+      (if Nat.eqb i 7 then (Z.min a max_cap <=? b) && (b <=? a) else Z.eqb a b)
+      && counts_ok (S i) pr xr
+  | _, _ => false
+  end.
+
 Definition mon_step (m : mst) (o : op) (e : ev) : option mst :=
   match o, e with
   | (ONewChan _ | ONewSche), EUnit => Some (mkM (m_sels m) (m_dead m) (m_q m ++ [[]]) (m_closed m))
@@ -115,7 +126,7 @@ Definition mon_step (m : mst) (o : op) (e : ev) : option mst :=
       end
   | OHandle _, EIdle => if drained m then Some m else None
   | OStress _ _, EStress off b p x =>
-      if forallb (Z.eqb 0) off && b && zlist_eqb p x then Some m else None
+      if forallb (Z.eqb 0) off && b && counts_ok 0 p x then Some m else None
   | _, _ => None
   end.
 
